@@ -1,8 +1,23 @@
 #!/bin/sh
 # Build the framework from files on disk only (offline). Run once after a fresh restore.
+# Builds exactly what the claimed checks (checks/C*.json) need: their Lean theorem modules and
+# drivers, and their harness engines against /repo with the verif-hooks feature.
 set -e
 cd "$(dirname "$0")"
 export CARGO_NET_OFFLINE=true
-(cd lean && lake build 2>&1 | tail -3)
-(cd harness && cargo build --offline --bins 2>&1 | grep -E "^(error|warning: unused)|Finished" | grep -v "^warning" | tail -5)
+TARGETS=$(python3 - <<'PY'
+import json, glob
+mods, bins = [], []
+for p in sorted(glob.glob("checks/C*.json")):
+    c = json.load(open(p))
+    if not c.get("claimed", True): continue
+    mods += c["lean_props"] + ([c["driver"]] if c.get("driver") else [])
+    bins.append(c["engine"])
+print(" ".join(dict.fromkeys(mods)) + "|" + " ".join("--bin " + b for b in dict.fromkeys(bins)))
+PY
+)
+LEAN_T=${TARGETS%%|*}
+BINS=${TARGETS##*|}
+(cd lean && lake build $LEAN_T 2>&1 | tail -3)
+(cd harness && cargo build --offline $BINS 2>&1 | grep -E "^error|Finished" | tail -5)
 echo "setup done"
